@@ -30,7 +30,7 @@ def nontrivial(case):
     return case["R"] >= 2 or len(case["shape"]) >= 2
 
 
-def gen_cases(tier, seed):
+def _gen_cases(tier, seed):
     rng = gen.rng_for(seed, ID, tier)
     cs = itertools.count(1)
 
@@ -71,6 +71,14 @@ def gen_cases(tier, seed):
                         yield C(w="arrange", shape=list(shp), R=R, wk="mixed", zerocol=False, weight_factor=None, perm=list(perm))
                         if R >= 2:
                             yield C(w="score", shape=list(shp), R=R, wk="positive", zerocol=False, perm=list(perm))
+                    if R >= 2 and N >= 1:
+                        for kind in ("zerocol-other", "zerocol-self", "disjoint", "zero-weight"):
+                            if kind == "disjoint" and shp[0] < R + 1:
+                                continue
+                            for RB in sorted({R, max(1, R - 1)}):
+                                perm = [int(x) for x in rng.permutation(R)]
+                                yield C(w="score_zero", shape=list(shp), R=R, wk="positive", zerocol=False, perm=perm, kind=kind, RB=RB,
+                                        wp=(kind == "zero-weight" or bool(rng.integers(0, 2))))
                     for k in range(1, R + 1):
                         for sub in itertools.combinations(range(R), k):
                             yield C(w="extract", shape=list(shp), R=R, wk="mixed", zerocol=False, idx=list(sub), form="array")
@@ -80,6 +88,35 @@ def gen_cases(tier, seed):
                     for comp in range(R):
                         for signs in itertools.product((1, -1), repeat=N):
                             yield C(w="fixsigns_ref", shape=list(shp), R=R, comp=comp, signs=list(signs), wk="positive", zerocol=False)
+
+
+PRE = [None, "normalize-all", "normalize-mode", "redistribute", "arrange", "c-order-factors", None, "update-all"]
+
+
+def gen_cases(tier, seed):
+    # object history: the receiver is not always fresh from the constructor -- it may have been through another parameterisation
+    # change first (which leaves differently laid-out factor matrices / absorbed weights behind)
+    for i, case in enumerate(_gen_cases(tier, seed)):
+        case["pre"] = PRE[(i * 5 + int(seed)) % len(PRE)]
+        yield case
+
+
+def _prehistory(K, pre, rng):
+    N = K.ndims
+    if pre == "normalize-all":
+        K.normalize(weight_factor="all")
+    elif pre == "normalize-mode":
+        K.normalize(weight_factor=int(rng.integers(0, N)))
+    elif pre == "redistribute":
+        K.redistribute(int(rng.integers(0, N)))
+    elif pre == "arrange":
+        K.arrange()
+    elif pre == "c-order-factors":
+        for n in range(N):
+            K.factor_matrices[n] = np.ascontiguousarray(K.factor_matrices[n])
+    elif pre == "update-all":
+        K.update(list(range(N)), K.tovec(False).copy())
+    return K
 
 
 def _make(case, rng):
@@ -109,6 +146,13 @@ def run_case(case, ctx):
     K = _make(case, rng)
     shape = tuple(case["shape"])
     N, R = len(shape), case["R"]
+    pre = case.get("pre")
+    if pre and case["w"] not in ("score", "score_zero", "fixsigns_ref"):
+        made = denote(K)
+        K = _prehistory(K, pre, np.random.default_rng(case["cseed"] + 17))
+        ctx.check(close(denote(K), made, scale=float(np.max(np.abs(made))) + 1e-300, tol=TOL), "ktensor." + pre.split("-")[0], "CHANGED-TENSOR",
+                  f"history step {pre} changed the denoted tensor", pre=pre)
+    ctx.feat(pre=str(pre))
     before = denote(K)
     scale = float(np.max(np.abs(before))) + 1e-300
     ctx.feat(N=N, R=R, wk=case.get("wk"), zerocol=case.get("zerocol", False))
@@ -171,6 +215,9 @@ def run_case(case, ctx):
         v = ctx.must("ktensor.tovec", K.tovec, iw)
         want_len = sum(s * R for s in shape) + (R if iw else 0)
         ctx.check(np.asarray(v).shape == (want_len,), "ktensor.tovec", "WRONG", f"vector length {np.asarray(v).shape} want {want_len}")
+        want_v = np.concatenate(([K.weights] if iw else []) + [np.asarray(f)[:, r_] for f in K.factor_matrices for r_ in range(R)])
+        ctx.check(np.asarray(v).shape == want_v.shape and same(np.asarray(v, dtype=float).reshape(-1), want_v), "ktensor.tovec", "WRONG",
+                  "vector is not [weights;] columns of factor 0, columns of factor 1, ... stacked")
         K2 = ctx.must("ktensor.from_vector", ttb.ktensor.from_vector, np.array(v), shape, iw)
         ok = all(same(a, b) for a, b in zip(K2.factor_matrices, K.factor_matrices)) and (same(K2.weights, K.weights) if iw else bool(np.all(K2.weights == 1)))
         ctx.check(ok, "ktensor.from_vector", "WRONG", "tovec / from_vector round trip does not reproduce the object exactly")
@@ -245,6 +292,44 @@ def run_case(case, ctx):
         # the aligned copy must match `other` component by component
         ok = all(close(A.factor_matrices[n][:, : O.ncomponents], O.factor_matrices[n], tol=1e-8) for n in range(N))
         ctx.check(ok, "ktensor.score", "WRONG", f"aligned copy does not recover the permutation (perm {best})")
+    elif w == "score_zero":
+        # exact-zero congruences: the greedy matching must still return a permutation and a re-ordered copy of the receiver
+        kind, RB = case["kind"], case["RB"]
+        ctx.feat(kind=kind, RB_lt_RA=(RB < R), weight_penalty=case["wp"])
+        p = np.array(case["perm"])
+        if kind == "disjoint":
+            # component supports are disjoint in mode 0 (needs I_0 >= R + 1): cross congruences are exactly 0
+            F0 = np.zeros((shape[0], R))
+            for r_ in range(R):
+                F0[r_, r_] = 1.0 + 0.25 * r_
+            K.factor_matrices[0] = F0
+        K.normalize()
+        O = K.copy()
+        O.arrange(permutation=p)
+        O = O.extract(np.arange(RB)) if RB < R else O
+        j = int(rng.integers(0, RB))
+        if kind == "zerocol-other":
+            O.factor_matrices[int(rng.integers(0, N))][:, j] = 0.0
+        elif kind == "zerocol-self":
+            K.factor_matrices[int(rng.integers(0, N))][:, int(rng.integers(0, R))] = 0.0
+        elif kind == "disjoint":
+            O.factor_matrices[0][:, j] = 0.0
+            O.factor_matrices[0][shape[0] - 1, j] = 1.0          # orthogonal to every component of the receiver
+        elif kind == "zero-weight":
+            O.weights[j] = 0.0
+        before = denote(K)
+        scale = float(np.max(np.abs(before))) + 1e-300
+        r = ctx.call("ktensor.score", K.score, O, weight_penalty=case["wp"])
+        if not r.ok:
+            ctx.check(False, "ktensor.score", "RAISE:" + type(r.exc).__name__, f"{type(r.exc).__name__}: {r.exc} | {r.tb}")
+            return
+        sc, A, flag, best = r.value
+        ctx.check(sorted(int(x) for x in np.asarray(best).reshape(-1)) == list(range(R)), "ktensor.score", "NOT-A-PERMUTATION",
+                  f"matching {np.asarray(best).tolist()} is not a permutation of the receiver's {R} components")
+        ctx.check(isinstance(A, ttb.ktensor) and A.ncomponents == R, "ktensor.score", "WRONG", "re-ordered copy has the wrong number of components")
+        unchanged("ktensor.score", A, aligned=True)
+        unchanged("ktensor.score", None, receiver=True)
+        ctx.check(0.0 <= float(sc) <= 1.0 + 1e-12, "ktensor.score", "WRONG", f"score {sc} outside [0, 1]")
     elif w == "fixsigns_ref":
         comp, signs = case["comp"], case["signs"]
         nneg = sum(1 for s in signs if s < 0)
